@@ -36,6 +36,7 @@ type Program struct {
 	theoryOrder []string
 	globals   map[string]Term   // package-level variable -> constant
 	globalAx  []string          // axioms from literal initialisers (bytes theory)
+	paramKeys map[string]string // package-level key variable -> Params field it is registered for in (*Params).ParamSetPairs (read from the syntax every run)
 	contractsSource string
 	loadSeconds float64
 }
@@ -120,6 +121,7 @@ func loadProgram(repo, verif string) (*Program, error) {
 		}
 	}
 	p.scanGlobals()
+	p.scanParamPairs()
 	// contracts: /repo/<pkg>/zz_contracts_verif.go, or the mirror in /verif/contracts
 	src := os.Getenv("GOVC_CONTRACTS")
 	for _, sub := range []string{"", "keeper", "types"} {
@@ -306,4 +308,48 @@ func (p *Program) posString(pos token.Pos) string {
 		rel = ps.Filename
 	}
 	return fmt.Sprintf("%s:%d", rel, ps.Line)
+}
+
+// scanParamPairs reads the wiring of the parameter store from the syntax of (*Params).ParamSetPairs in package types:
+// every NewParamSetPair(<key variable>, &p.<Field>, <validator>) registers the key for that field. The parameter getters
+// of the keeper read the subspace by key; their contracts ("returns params.<Field>") are checked against this table.
+func (p *Program) scanParamPairs() {
+	p.paramKeys = map[string]string{}
+	for _, pk := range p.pkgs {
+		if pk.PkgPath != modPath+"/types" {
+			continue
+		}
+		for _, f := range pk.Syntax {
+			for _, d := range f.Decls {
+				fd, ok := d.(*ast.FuncDecl)
+				if !ok || fd.Name.Name != "ParamSetPairs" || fd.Body == nil {
+					continue
+				}
+				ast.Inspect(fd.Body, func(n ast.Node) bool {
+					call, ok := n.(*ast.CallExpr)
+					if !ok || len(call.Args) != 3 {
+						return true
+					}
+					sel, ok := call.Fun.(*ast.SelectorExpr)
+					if !ok || sel.Sel.Name != "NewParamSetPair" {
+						return true
+					}
+					key, ok := call.Args[0].(*ast.Ident)
+					if !ok {
+						return true
+					}
+					un, ok := call.Args[1].(*ast.UnaryExpr)
+					if !ok || un.Op != token.AND {
+						return true
+					}
+					fs, ok := un.X.(*ast.SelectorExpr)
+					if !ok {
+						return true
+					}
+					p.paramKeys[pk.PkgPath+"."+key.Name] = fs.Sel.Name
+					return true
+				})
+			}
+		}
+	}
 }
